@@ -478,9 +478,15 @@ func (s *nodePrivilegedService) FindMissingMessages(ctx context.Context, req *no
 	if err != nil {
 		return nil, status.Errorf(codes.InvalidArgument, "invalid emitter address encoding: %v", err)
 	}
+	if len(b) != 32 {
+		return nil, status.Errorf(codes.InvalidArgument, "invalid emitter address: expected 32 bytes, got %d", len(b))
+	}
 	emitterAddress := vaa.Address{}
 	copy(emitterAddress[:], b)
 
+	if req.EmitterChain > math.MaxUint16 || req.TargetChain > math.MaxUint16 {
+		return nil, status.Errorf(codes.InvalidArgument, "invalid chain id")
+	}
 	emitterChain := vaa.ChainID(req.EmitterChain)
 	targetChain := vaa.ChainID(req.TargetChain)
 	ids, first, last, err := s.db.FindEmitterSequenceGap(vaa.VAAID{
